@@ -383,9 +383,30 @@ def run_check(prop, tier, seed, nruns=None, workers=None, selfcheck=None):
             say(f"HARNESS-ERROR property={prop} determinism self-check: {e}")
             return 2
         for i in sample:
-            if fd.get(str(i)) != results[i]["digest"]:
+            if (fd.get(str(i)) or [None])[0] != results[i]["digest"]:
                 mism.append(i)
         if mism:
+            # a run that behaves differently under another hash seed: if the
+            # other execution ended in a violation, that is the finding (the
+            # code under test depends on the hash seed); otherwise no verdict
+            hv = [i for i in mism if fd[str(i)][1] == "violation"]
+            if hv and all(results[i]["result"] == "ok" for i in hv):
+                i = hv[0]
+                OUT.joinpath("replays").mkdir(parents=True, exist_ok=True)
+                path = OUT / "replays" / f"{prop}-{seed}-{i}-hashseed1.json"
+                path.write_text(json.dumps({
+                    "property": prop, "seed": seed, "run_index": i,
+                    "tier": tier, "tree": None, "hashseed": "1",
+                    "signature": fd[str(i)][2], "detail": fd[str(i)][3],
+                    "note": "passes under PYTHONHASHSEED=0, fails under "
+                            "PYTHONHASHSEED=1: behaviour depends on the hash "
+                            "seed"}, indent=1))
+                ok, txt = confirm_fresh(path, fd[str(i)][2])
+                if ok:
+                    say(f"VIOLATION property={prop} replay={path}")
+                    say(f"  signature={fd[str(i)][2]} (only under "
+                        f"PYTHONHASHSEED=1) detail={fd[str(i)][3][:400]}")
+                    return 1
             say(f"HARNESS-ERROR property={prop} nondeterministic runs {mism[:8]}"
                 " (digest differs in a fresh interpreter with another hash seed)")
             return 2
